@@ -21,6 +21,8 @@ import DD.Capacity3
 import DD.Capacity3Cofactor
 import DD.Capacity3Rename
 import DD.Capacity3Cube
+import DD.Capacity3Expr
+import DD.ParseDriver
 import DD.Driver
 open Std
 
@@ -51,7 +53,7 @@ def stepLineCap (s : CapSession) (line : String) : CapSession × String :=
     | some l => if l.startsWith "S:" then (fields0.dropLast, parseSched (l.drop 2).toString) else (fields0, some [])
     | none => (fields0, some [])
   let deleg : CapSession × String :=
-    let (ms', o) := stepLine s.ms line
+    let (ms', o) := stepLineParse s.ms line
     ({ s with ms := ms' }, o)
   match sched with
   | none => (s, "err BAD-SCHEDULE")
@@ -141,6 +143,9 @@ def stepLineCap (s : CapSession) (line : String) : CapSession × String :=
           | some u, some [v] => runCapOn s id sched (DRes.int <$> applyCapL cap aop u (some v) none) (DRes.int <$> applyCap cap aop u (some v) none)
           | some u, some [v, w] => runCapOn s id sched (DRes.int <$> applyCapL cap aop u (some v) (some w)) (DRes.int <$> applyCap cap aop u (some v) (some w))
           | _, _ => (s, "err OtherError")
+        | "add_expr", [formula] =>
+          if old then runCapOn s id sched (DRes.int <$> addExprCapO cap (unescape formula)) (DRes.int <$> addExprCapO cap (unescape formula))
+          else runCapOn s id sched (DRes.int <$> addExprCapL cap (unescape formula)) (DRes.int <$> addExprCap cap (unescape formula))
         | "cube", [d] =>
           match (parsePairs d).bind (fun ps => ps.mapM fun (k, b) => do
               let b ← parseBool? b; pure (k, b)) with
